@@ -6,7 +6,7 @@ import time
 
 from . import common as C
 from . import oracles as O
-from . import stage_cli, stage_gen, stage_mock
+from . import stage_cli, stage_gen, stage_l1, stage_mock
 
 IMPORTS_ALL = ("From Moq Require Import Strs GoTypes TypeString VarName Registry Scope Gen TmplAst TmplExec "
                "MockSem MockSpec MockSeq_Proofs WellScoped.\n")
@@ -38,7 +38,7 @@ def thm(name, file):
 
 
 GEN_MODEL_FILES = ["Strs.v", "GoTypes.v", "TypeString.v", "VarName.v", "Registry.v", "Scope.v", "Gen.v",
-                   "TmplAst.v", "TmplExec.v", "gen/Tables.v", "gen/TemplateSrc.v", "WellScoped.v", "L2Check.v"]
+                   "TmplAst.v", "TmplExec.v", "gen/Tables.v", "gen/TemplateSrc.v", "WellScoped.v", "L2Check.v", "L1Check.v"]
 MOCK_MODEL_FILES = ["Strs.v", "MockSem.v", "MockSpec.v", "MockSeq_Proofs.v", "MockCheck.v", "P_C07.v",
                     "gen/TemplateSrc.v", "TmplAst.v"]
 
@@ -53,8 +53,8 @@ STRUCTURE_FAMILIES = ["method_name_clash", "names_body_idents", "mock_name_twice
                       "names_distinct", "fields_distinct", "names_tparams", "names_shadow_types", "names_qualifiers"]
 
 PROPS = {
-    "C01": dict(kind="gen", files=["P_C01.v", "GoTypes_Proofs.v", "Registry_Proofs.v", "P_C11.v"], theorems=[thm("C01_walk_visits_what_is_printed", "P_C01"), thm("populate_covers", "P_C01"), thm("C01_import_paths_sound", "P_C01"), thm("C01_refuted", "P_C01"), thm("C01_tparam_fixed", "P_C01"), thm("rest_region_closed", "TmplRegion_rest"), thm("refs_eq_mentions_fixed", "GoTypes_Proofs")], oracle=O.o_c01, known=ALL_FAMILIES),
-    "C02": dict(kind="gen", files=["P_C02.v", "P_C20.v"], theorems=[thm("C02_method_signature", "P_C02"), thm("C02_func_field_same_strings", "P_C02"), thm("C02_variadic_spelling", "P_C02"), thm("C02_method_arg", "P_C02")], oracle=O.o_c02,
+    "C01": dict(kind="gen", files=["P_C01.v", "GoTypes_Proofs.v", "Registry_Proofs.v", "P_C11.v", "P_C11_exact.v", "Imports_Proofs.v", "Printer_Proofs.v"], theorems=[thm("C11_exact_no_missing", "P_C11_exact"), thm("C11_exact_nothing_else", "P_C11_exact"), thm("C11_printer_consults_mentions", "P_C11_exact"), thm("C01_walk_visits_what_is_printed", "P_C01"), thm("populate_covers", "P_C01"), thm("C01_import_paths_sound", "P_C01"), thm("C01_refuted", "P_C01"), thm("C01_tparam_fixed", "P_C01"), thm("rest_region_closed", "TmplRegion_rest"), thm("refs_eq_mentions_fixed", "GoTypes_Proofs")], oracle=O.o_c01, known=ALL_FAMILIES),
+    "C02": dict(kind="gen", files=["P_C02.v", "P_C20.v", "P_C20_whole.v", "WholeRun_Proofs.v"], theorems=[thm("C02_whole_run_signatures", "P_C20_whole"), thm("C02_method_signature", "P_C02"), thm("C02_func_field_same_strings", "P_C02"), thm("C02_variadic_spelling", "P_C02"), thm("C02_method_arg", "P_C02")], oracle=O.o_c02,
                 known=["unexported_foreign", "not_a_method_set_interface", "method_name_clash", "mock_name_twice",
                        ]),
     "C03": dict(kind="mock", files=["P_C03.v", "TmplClosed.v", "TmplRegions.v"], need="B",
@@ -91,16 +91,16 @@ PROPS = {
                 known=["self_check_not_instantiable", "constraint_unqualified_printer",
                        "walk_incomplete", "tparams_clash", "names_tparams", "not_a_method_set_interface",
                        "mock_name_twice", "method_name_clash", "unexported_foreign"]),
-    "C10": dict(kind="gen", files=["P_C10.v", "P_C11.v", "Registry_Proofs.v"], theorems=[thm("C10_infer", "P_C10"), thm("C10_same_no_self_import", "P_C10"), thm("C10_same_bare", "P_C10"), thm("C10_other_imports_source", "P_C10"), thm("C10_skip_qualifier", "P_C10"), thm("C10_explicit_same_refuted", "P_C10")], oracle=O.o_c10,
+    "C10": dict(kind="gen", files=["P_C10.v", "P_C11.v", "Registry_Proofs.v", "P_C11_exact.v", "Imports_Proofs.v", "Printer_Proofs.v"], theorems=[thm("C10_skip_ensure_exact", "P_C11_exact"), thm("C10_types_qualified_through_their_import", "P_C11_exact"), thm("C10_infer", "P_C10"), thm("C10_same_no_self_import", "P_C10"), thm("C10_same_bare", "P_C10"), thm("C10_other_imports_source", "P_C10"), thm("C10_skip_qualifier", "P_C10"), thm("C10_explicit_same_refuted", "P_C10")], oracle=O.o_c10,
                 known=["explicit_same_pkg", "unexported_foreign"]),
-    "C11": dict(kind="gen", files=["P_C11.v", "Registry_Proofs.v"], theorems=[thm("C11_once", "P_C11"), thm("C11_sorted", "P_C11"), thm("C11_never_imports_destination", "P_C11"), thm("C11_keep_alias", "P_C11"), thm("C11_no_dot_blank", "P_C11"), thm("C11_vendor_example", "P_C11"), thm("C11_sync_when_methods", "P_C11"), thm("C11_distinct_refuted", "P_C11"), thm("C11_identifier_refuted", "P_C11")], oracle=O.o_c11,
+    "C11": dict(kind="gen", files=["P_C11.v", "Registry_Proofs.v", "P_C11_exact.v", "Imports_Proofs.v", "Printer_Proofs.v"], theorems=[thm("C11_exact", "P_C11_exact"), thm("C11_exact_no_missing", "P_C11_exact"), thm("C11_exact_nothing_else", "P_C11_exact"), thm("C11_printer_consults_mentions", "P_C11_exact"), thm("C11_walk_covers_printer", "P_C11_exact"), thm("C11_exact_premise_holds", "P_C11_exact"), thm("C11_once", "P_C11"), thm("C11_sorted", "P_C11"), thm("C11_never_imports_destination", "P_C11"), thm("C11_keep_alias", "P_C11"), thm("C11_no_dot_blank", "P_C11"), thm("C11_vendor_example", "P_C11"), thm("C11_sync_when_methods", "P_C11"), thm("C11_distinct_refuted", "P_C11"), thm("C11_identifier_refuted", "P_C11")], oracle=O.o_c11,
                 known=["alias_duplicate", "alias_not_identifier", "walk_incomplete", "explicit_same_pkg"]),
-    "C12": dict(kind="gen", files=["P_C12.v", "P_C19.v"], theorems=[thm("C12_reserved_covers_keywords", "P_C12"), thm("C12_reserved_covers_basic_types", "P_C12"), thm("C12_suffix_escapes_table", "P_C12"), thm("C12_generated_not_reserved", "P_C12"), thm("C12_fresh", "P_C12"), thm("C12_numbering_keeps_distinct", "P_C12"), thm("C12_add_var_keeps_distinct", "P_C12"), thm("C12_number_two_fixed", "P_C12"), thm("C12_user_reserved_fixed", "P_C12"), thm("C12_user_reserved_refuted", "P_C12"), thm("C12_fields_refuted", "P_C12"), thm("C12_numbering_crash_fixed", "P_C12")], oracle=O.o_c12,
+    "C12": dict(kind="gen", files=["P_C12.v", "P_C19.v", "P_C12_names.v", "Names_Proofs.v"], theorems=[thm("C12_type_derived_name_is_identifier", "P_C12_names"), thm("C12_var_name_is_identifier", "P_C12_names"), thm("C12_add_var_names_are_identifiers", "P_C12_names"), thm("C12_reserved_covers_keywords", "P_C12"), thm("C12_reserved_covers_basic_types", "P_C12"), thm("C12_suffix_escapes_table", "P_C12"), thm("C12_generated_not_reserved", "P_C12"), thm("C12_fresh", "P_C12"), thm("C12_numbering_keeps_distinct", "P_C12"), thm("C12_add_var_keeps_distinct", "P_C12"), thm("C12_number_two_fixed", "P_C12"), thm("C12_user_reserved_fixed", "P_C12"), thm("C12_user_reserved_refuted", "P_C12"), thm("C12_fields_refuted", "P_C12"), thm("C12_numbering_crash_fixed", "P_C12")], oracle=O.o_c12,
                 known=["names_distinct", "fields_distinct", "names_body_idents", "names_keywords",
                        "names_shadow_types", "names_qualifiers", "names_tparams", "tparams_clash",
                        "mock_name_twice", "method_name_clash"]),
-    "C13": dict(kind="gen", files=["P_C13.v"],
-                theorems=[thm("C13_exported_spec", "P_C13"), thm("C13_table", "P_C13"),
+    "C13": dict(kind="gen", files=["P_C13.v", "P_C12_names.v", "Names_Proofs.v"],
+                theorems=[thm("C13_unsafe_pointer_fixed", "P_C12_names"), thm("C13_exported_spec", "P_C13"), thm("C13_table", "P_C13"),
                           thm("C13_initialism_any_case", "P_C13"), thm("C13_unnamed_rule", "P_C13"),
                           thm("C13_user_name_verbatim", "P_C13"), thm("C13_user_name_body_idents", "P_C13"), thm("C13_kept_partial", "P_C13")],
                 oracle=O.o_c13, known=["transient_qualifier_rename"]),
@@ -132,7 +132,7 @@ PROPS = {
                           thm("C18_no_out", "Cli_Proofs"), thm("C18_effect_alphabet", "Sites_Proofs"),
                           thm("pin_main_run", "Pin_main_run"), thm("pin_moq_new", "Pin_moq_new")]),
     "C19": dict(kind="gen", files=["P_C19.v"], theorems=[thm("C19_numbering_terminates", "P_C19"), thm("C19_numbering_total", "P_C19"), thm("C19_numbering_never_out_of_fuel", "P_C19"), thm("C19_alias_diverges_refuted", "P_C19"), thm("C19_alias_diverges_at_add_import", "P_C19"), thm("C19_error_not_found", "P_C19"), thm("C19_error_not_interface", "P_C19"), thm("C19_error_no_arguments", "P_C19"), thm("C19_no_slice_panic", "P_C19"), thm("C19_variadic_slice_in_range", "P_C19"), thm("C19_run_settled", "P_C19"), thm("C19_run_never_crashes", "P_C19"), thm("C19_resolve_fuel_irrelevant", "P_C19")], oracle=O.o_c19, known=["alias_resolution_diverges"]),
-    "C20": dict(kind="gen", files=["P_C20.v"], theorems=[thm("C20_parse_plain", "P_C20"), thm("C20_parse_alias", "P_C20"), thm("C20_count_order_names", "P_C20"), thm("C20_count", "P_C20"), thm("C20_method_types_independent", "P_C20")], oracle=O.o_c20, known=[]),
+    "C20": dict(kind="gen", files=["P_C20.v", "P_C20_whole.v", "WholeRun_Proofs.v"], theorems=[thm("C20_alone_or_together", "P_C20_whole"), thm("C20_premises_hold", "P_C20_whole"), thm("C20_parse_plain", "P_C20"), thm("C20_parse_alias", "P_C20"), thm("C20_count_order_names", "P_C20"), thm("C20_count", "P_C20"), thm("C20_method_types_independent", "P_C20")], oracle=O.o_c20, known=[]),
 }
 
 OK_VERDICTS = {"ok", "ok-proj", "ok-err", "ok-diverges", "ok-crash", "skip-order"}
@@ -327,9 +327,44 @@ def run(ctx):
                     failures.append(dict(case=cr, fails=fails, families=sorted(fams)))
             elif fams & set(spec["known"]) and ctx.pid == "C01":
                 notes.append("model predicts %s but go/types accepts %s" % (sorted(fams), cr["case"]["id"]))
+        if ctx.pid in stage_l1.L1_PROPS:
+            # L1: the registry / method-scope model against the real internal/registry package on
+            # histories of AddImport / AddVar over synthetic go/types objects
+            l1 = stage_l1.run(ctx.tools, ctx.seed, ctx.tier)
+            if l1["errors"]:
+                corr_breaks.append(dict(what="Coq evaluation of the L1 histories failed", detail=l1["errors"][0][-500:]))
+
+            def l1case(h):
+                return dict(case=dict(id=h["id"], args=[], pkg="", stub=False, skip=False, resets=False,
+                                      history=h.get("history"), observed=h.get("observed")),
+                            text=None, facts={}, src={})
+            for h in l1["disagreements"]:
+                if ctx.pid in stage_l1.about(h["verdict"]):
+                    corr_breaks.append(dict(what="L1: the model of registry.go / method_scope.go / var.go and the real "
+                                                 "package disagree on a history of AddImport / AddVar (%s)" % h["verdict"],
+                                            case=dict(id=h["id"], impl=h["kind"], model_vs_impl=h["verdict"],
+                                                      history=h.get("history"), observed=h.get("observed"))))
+            if ctx.pid in ("C12", "C13"):
+                for h in l1["invalid_names"]:
+                    failures.append(dict(case=l1case(h), families=[],
+                                         fails=[("AddVar gave a variable a name that is not an identifier: %s"
+                                                 % ", ".join(h["names"][:3]), "invalid identifier")]))
+            notes.append("L1: %d histories of AddImport/AddVar on the real registry vs the model: %s; %d variables, "
+                         "%d imports" % (l1["n"], l1["verdicts"], l1["stats"].get("vars", 0), l1["stats"].get("imports", 0)))
+            evaluated += l1["evaluated"]
     else:  # mock-structure properties: the Coq checkers on the lifted programs
         need = spec["need"]
         for cr in cases:
+            if cr["kind"] == "err" and cr["verdict"] == "DIFF-model-ok" and not (set(cr["families"]) & set(ALL_FAMILIES)):
+                # the model generates a mock for this input, the implementation reports an error instead: no
+                # mock, so nothing of what the property promises about it.  Reported by the property whose
+                # flag selects the part of the template involved (-stub: C07, -with-resets: C08, otherwise C03)
+                owner = "C07" if cr["case"]["stub"] else ("C08" if cr["case"]["resets"] else "C03")
+                if ctx.pid == owner:
+                    failures.append(dict(case=cr, families=sorted(cr["families"]),
+                                         fails=[("moq fails on an interface the model generates a mock for (%s): %s"
+                                                 % ("-stub" if cr["case"]["stub"] else "flags as given", (cr.get("text") or "")[:160]),
+                                                 "no mock generated")]))
             if cr["kind"] != "out":
                 continue
             evaluated += 1
